@@ -22,13 +22,26 @@ TRUSTED = ["models FS.lean / Renamer.lean / Pipeline.lean hand-written; tied to 
            "(exit status, reported renames, primitive log, final tree with identities)"]
 
 
+# names longer than the file system's limit for one name (255 bytes) that agree in their first 251 bytes: the tool
+# cannot create them — and must not create something else instead
+LONG = ["L" * 252 + "a.txt", "L" * 252 + "b.txt", "s/" + "L" * 252 + "c.txt"]
+
+
 def gen_runs(rng, n, tier):
     for _ in range(n):
-        yield fsrun.gen_scenario(rng, dry=False, fault=True)
+        if rng.random() < 0.05:
+            c = fsrun.gen_scenario(rng, dry=False, fault=False, universe_name=fsrun.UNIVERSE_NAME + LONG[:2] * 3,
+                                   universe_path=fsrun.UNIVERSE_PATH + LONG * 3)
+            c["long_names"] = True
+            yield c
+        else:
+            yield fsrun.gen_scenario(rng, dry=False, fault=True)
 
 
 def impl_runs(case):
     obs = fsrun.observe(case)
+    if case.get("long_names") and "File name too long" in (obs.get("err") or ""):
+        obs["natural_oserror"] = True
     return obs
 
 
@@ -38,10 +51,15 @@ def no_override(case):
 
 
 def faulted(obs):
-    return any(o[0] == "fault" for o in obs["ops"])
+    # an injected OSError, or a real one: a name beyond NAME_MAX makes rename(2) fail, and shutil.move then falls back to
+    # copying (for a symbolic link: creating it anew) before it fails as well
+    return any(o[0] == "fault" for o in obs["ops"]) or bool(obs.get("natural_oserror"))
 
 
 def compare_runs(case, obs, pred):
+    if case.get("long_names") and any(len(part.encode()) > 255 for _, _, g in obs["gens"] if g[0] == "P" for part in g[1].split("/")):
+        obs["model"] = "skipped: a generated name exceeds NAME_MAX (the model has no such limit)"
+        return True
     if faulted(obs) and case["mode"] == "path" and any(o[0] == "fault" and o[1][0] == "rename" for o in obs["ops"]):
         obs["model"] = "skipped: fault inside shutil.move (copy fallback)"
         return True
